@@ -250,9 +250,19 @@ func (tr *Tr) addr(structKey, field, base string) string {
 	t := app(fn, base)
 	if !tr.addrSeen[t] && tr.pure == 0 {
 		tr.addrSeen[t] = true
-		tr.raw(fmt.Sprintf("(assert (and (< %s 0) (= (%s!inv %s) %s) (= (addrtag %s) %d)))", t, fn, t, base, t, tr.C.addrTag[fn]))
+		tr.C.declare("owner", "(declare-fun owner (Int) Int)")
+		// owner: the allocated object a member address lies in (members of members included)
+		tr.raw(fmt.Sprintf("(assert (and (< %s 0) (= (%s!inv %s) %s) (= (addrtag %s) %d) (= (owner %s) (ite (< %s 0) (owner %s) %s))))",
+			t, fn, t, base, t, tr.C.addrTag[fn], t, base, base, base))
 	}
 	return t
+}
+
+// preExisting: reference r denotes memory that existed when the function was entered (A0 = entry
+// allocation counter). Member addresses are negative; they are as old as the object that owns them.
+func (tr *Tr) preExisting(r, A0 string) string {
+	tr.C.declare("owner", "(declare-fun owner (Int) Int)")
+	return ite(app("<", r, "0"), app("<", app("owner", r), A0), app("<", r, A0))
 }
 
 func (tr *Tr) fieldPlace(ref string, T types.Type, st *types.Struct, i int) *Place {
@@ -474,8 +484,25 @@ func (tr *Tr) unboxIface(x string, t types.Type) Val {
 
 // ---------- function-level driver ----------
 
+// genVC translates the function twice with the same context. Heap keys are discovered lazily; a
+// key first touched after a control-flow merge of heaps from different epochs would otherwise be
+// missing from that merge (sound, but it loses "this array is unchanged" and makes frame obligations
+// fail). The first pass only serves to register every key; the second pass is the one that is used.
 func (g *Global) genVC(fn *ssa.Function, contract *Contract) (vc *FnVC) {
 	C := newCtx()
+	first := g.genVCpass(fn, contract, C)
+	if first.Err != nil {
+		return first
+	}
+	for _, c := range g.contracts.Order { // after-clauses record use per pass
+		for _, a := range c.After {
+			a.Used = false
+		}
+	}
+	return g.genVCpass(fn, contract, C)
+}
+
+func (g *Global) genVCpass(fn *ssa.Function, contract *Contract, C *Ctx) (vc *FnVC) {
 	storeDefs = map[string][2]string{}
 	vc = &FnVC{Fn: fn, Contract: contract, Ctx: C, Inlined: map[string]int{}, Unknown: map[string]int{}, Abstract: map[string]int{}, UsedContr: map[string]bool{}}
 	tr := &Tr{G: g, C: C, vc: vc, sliceConstLen: map[string]int64{}, addrSeen: map[string]bool{}}
@@ -1106,7 +1133,7 @@ func (tr *Tr) loopHeader(fr *frame, li *loopInfo) {
 					}
 					cur, old := fr.heap.m[k], tr.C.hget(fr.entryH, k)
 					r := tr.C.fresh("fr")
-					conds := []string{app("<", r, fr.entryA)}
+					conds := []string{tr.preExisting(r, fr.entryA)}
 					for _, a := range refs {
 						conds = append(conds, not(eq(r, a)))
 					}
@@ -1165,7 +1192,7 @@ func (tr *Tr) backEdge(fr *frame, from *ssa.BasicBlock, to *ssa.BasicBlock, cond
 	lab := strconv.Itoa(li.ordinal)
 	for _, fk := range li.frameKeys {
 		r := tr.declareConst("Int", "frame_r")
-		conds := []string{app("<", r, fr.entryA)}
+		conds := []string{tr.preExisting(r, fr.entryA)}
 		for _, a := range fk.refs {
 			conds = append(conds, not(eq(r, a)))
 		}
